@@ -199,3 +199,226 @@ func checkMapElements(c *vm.Ctx, r *vm.Rand) {
 		}
 	}
 }
+
+// randomMember returns a compound carrying a random subset of mapElem's fields and the element it denotes.
+func randomMember(r *vm.Rand) (*refnbt.Value, mapElem) {
+	mem := &refnbt.Value{Tag: refnbt.Compound}
+	var e mapElem
+	if r.Bool() {
+		e.X = int32(r.Uint64())
+		mem.Comp = append(mem.Comp, refnbt.Entry{Name: "x", V: refnbt.In(e.X)})
+	}
+	if r.Bool() {
+		e.Y = int32(r.Uint64())
+		mem.Comp = append(mem.Comp, refnbt.Entry{Name: "y", V: refnbt.In(e.Y)})
+	}
+	if r.Bool() {
+		v := int32(r.Uint64())
+		e.P = &v
+		mem.Comp = append(mem.Comp, refnbt.Entry{Name: "p", V: refnbt.In(v)})
+	}
+	if r.Bool() {
+		b := r.Bytes(r.Range(0, 4))
+		e.S = make([]int8, len(b))
+		for k := range b {
+			e.S[k] = int8(b[k])
+		}
+		mem.Comp = append(mem.Comp, refnbt.Entry{Name: "s", V: &refnbt.Value{Tag: refnbt.ByteArray, Bytes: b}})
+	}
+	if r.Bool() {
+		e.M = map[string]int32{}
+		inner := &refnbt.Value{Tag: refnbt.Compound}
+		for k := r.Range(0, 3); k > 0; k-- {
+			key := fmt.Sprintf("k%d", r.Intn(4))
+			if _, dup := e.M[key]; dup {
+				continue
+			}
+			v := int32(r.Uint64())
+			e.M[key] = v
+			inner.Comp = append(inner.Comp, refnbt.Entry{Name: key, V: refnbt.In(v)})
+		}
+		mem.Comp = append(mem.Comp, refnbt.Entry{Name: "m", V: inner})
+	}
+	if r.Bool() {
+		e.L = make([]int32, r.Range(0, 3))
+		lst := &refnbt.Value{Tag: refnbt.IntArray}
+		for k := range e.L {
+			e.L[k] = int32(r.Uint64())
+			lst.Ints = append(lst.Ints, e.L[k])
+		}
+		mem.Comp = append(mem.Comp, refnbt.Entry{Name: "l", V: lst})
+	}
+	return mem, e
+}
+
+func sameElem(got, w mapElem) bool {
+	if got.X != w.X || got.Y != w.Y || (got.P == nil) != (w.P == nil) || (got.P != nil && *got.P != *w.P) {
+		return false
+	}
+	if len(got.S) != len(w.S) || len(got.L) != len(w.L) || len(got.M) != len(w.M) {
+		return false
+	}
+	for i := range w.S {
+		if got.S[i] != w.S[i] {
+			return false
+		}
+	}
+	for i := range w.L {
+		if got.L[i] != w.L[i] {
+			return false
+		}
+	}
+	for k, v := range w.M {
+		if gv, ok := got.M[k]; !ok || gv != v {
+			return false
+		}
+	}
+	return true
+}
+
+type listHolder struct {
+	A  int32      `nbt:"a"`
+	Es []mapElem  `nbt:"es"`
+	Ps []*mapElem `nbt:"ps"`
+	Z  string     `nbt:"z"`
+}
+
+// checkListElements: the same for a LIST of compounds decoded into []T, []*T, [N]T and [N]*T (N two more than the
+// list is long), at the root, as a struct member (the list twice: by value and by pointer) and as a map value. The
+// generated receivers hold lists of compounds only as []any / []map[string]any. Every element is a value of its
+// own: nothing of one element may show in the next, no two elements may share a pointer, slice or inner map, and
+// what a fixed-size array has beyond the list stays zero.
+func checkListElements(c *vm.Ctx, r *vm.Rand) {
+	n := r.Range(2, 6)
+	list := &refnbt.Value{Tag: refnbt.List, Elem: refnbt.Compound}
+	var want []mapElem
+	for i := 0; i < n; i++ {
+		mem, e := randomMember(r)
+		list.List = append(list.List, mem)
+		want = append(want, e)
+	}
+	network := r.Bool()
+	position := []string{"root", "member", "map-value"}[r.Intn(3)]
+	root := list
+	switch position {
+	case "member":
+		root = &refnbt.Value{Tag: refnbt.Compound, Comp: []refnbt.Entry{{Name: "a", V: refnbt.In(7)}, {Name: "es", V: list}, {Name: "ps", V: list}, {Name: "z", V: refnbt.St("after")}}}
+	case "map-value":
+		root = &refnbt.Value{Tag: refnbt.Compound, Comp: []refnbt.Entry{{Name: "k1", V: list}, {Name: "k2", V: list}}}
+	}
+	doc := refnbt.Encode(root, "", network)
+	wit := func() any {
+		return map[string]any{"doc_hex": vm.Hex(doc), "network": network, "position_of_the_list": position, "document": refnbt.Describe(root)}
+	}
+	c.Eval(vm.Hash64(doc, []byte("list-elements")), true)
+	type receiver struct {
+		kind string
+		ptr  any                      // what Decode gets
+		get  func() ([]*mapElem, int) // the elements as pointers (nil where a pointer element is nil), and the receiver's length
+	}
+	vals := func(s []mapElem) []*mapElem {
+		out := make([]*mapElem, len(s))
+		for i := range s {
+			out[i] = &s[i]
+		}
+		return out
+	}
+	var recs []receiver
+	switch position {
+	case "root":
+		var sv []mapElem
+		var sp []*mapElem
+		av := reflect.New(reflect.ArrayOf(n+2, reflect.TypeOf(mapElem{})))
+		ap := reflect.New(reflect.ArrayOf(n+2, reflect.TypeOf(&mapElem{})))
+		recs = []receiver{
+			{"[]struct", &sv, func() ([]*mapElem, int) { return vals(sv), len(sv) }},
+			{"[]*struct", &sp, func() ([]*mapElem, int) { return sp, len(sp) }},
+			{"[N]struct", av.Interface(), func() ([]*mapElem, int) { return vals(av.Elem().Slice(0, n+2).Interface().([]mapElem)), n + 2 }},
+			{"[N]*struct", ap.Interface(), func() ([]*mapElem, int) { return ap.Elem().Slice(0, n+2).Interface().([]*mapElem), n + 2 }},
+		}
+	case "member":
+		var h listHolder
+		recs = []receiver{
+			{"[]struct", &h, func() ([]*mapElem, int) { return vals(h.Es), len(h.Es) }},
+			{"[]*struct", &h, func() ([]*mapElem, int) { return h.Ps, len(h.Ps) }},
+		}
+	default:
+		var mv map[string][]mapElem
+		var mp map[string][]*mapElem
+		recs = []receiver{
+			{"[]struct", &mv, func() ([]*mapElem, int) {
+				return append(vals(mv["k1"]), vals(mv["k2"])...), len(mv["k1"]) + len(mv["k2"])
+			}},
+			{"[]*struct", &mp, func() ([]*mapElem, int) {
+				return append(append([]*mapElem{}, mp["k1"]...), mp["k2"]...), len(mp["k1"]) + len(mp["k2"])
+			}},
+		}
+	}
+	decoded := map[any]bool{}
+	for _, rc := range recs {
+		sub := "dec/list-elements"
+		if !decoded[rc.ptr] {
+			decoded[rc.ptr] = true
+			var err error
+			br := bytes.NewReader(doc)
+			if c.Guard(sub+"/"+rc.kind, wit, func() {
+				d := nbt.NewDecoder(br)
+				d.NetworkFormat(network)
+				_, err = d.Decode(rc.ptr)
+			}) {
+				continue
+			}
+			if err != nil || br.Len() != 0 {
+				c.Violation(sub+"/error-on-wellformed/"+rc.kind, fmt.Sprintf("decoding a list of compounds (%s) into %T: error %v, %d bytes left unread", position, rc.ptr, err, br.Len()), wit())
+				continue
+			}
+		}
+		got, length := rc.get()
+		wantN, twice := n, 1
+		if position == "map-value" {
+			wantN, twice = 2*n, 2
+		}
+		ok := true
+		if (rc.kind[1] == ']' && length != wantN) || len(got) < wantN {
+			c.Violation(sub+"/length/"+rc.kind, fmt.Sprintf("a list of %d compounds decoded into %s (%s) has %d elements", n, rc.kind, position, length), wit())
+			continue
+		}
+		for i := 0; i < n*twice; i++ {
+			if got[i] == nil || !sameElem(*got[i], want[i%n]) {
+				g := "nil"
+				if got[i] != nil {
+					g = got[i].describe()
+				}
+				c.Violation(sub+"/element-differs/"+rc.kind, fmt.Sprintf("element %d of the list decoded into %s (%s) is %s, the document says %s", i%n, rc.kind, position, g, want[i%n].describe()), wit())
+				ok = false
+				break
+			}
+		}
+		for i := n * twice; ok && i < len(got); i++ { // the tail of a fixed-size array
+			if got[i] != nil && !reflect.DeepEqual(*got[i], mapElem{}) {
+				c.Violation(sub+"/array-tail-not-zero/"+rc.kind, fmt.Sprintf("element %d of a fresh %s, beyond the %d elements of the list, is %s", i, rc.kind, n, got[i].describe()), wit())
+				ok = false
+			}
+		}
+		if !ok {
+			continue
+		}
+		ptrs := map[uintptr]int{}
+		for i := 0; i < n*twice && ok; i++ {
+			for what, rv := range map[string]reflect.Value{"element": reflect.ValueOf(got[i]), "p": reflect.ValueOf(got[i].P), "m": reflect.ValueOf(got[i].M), "s": reflect.ValueOf(got[i].S), "l": reflect.ValueOf(got[i].L)} {
+				if rv.IsNil() || (rv.Kind() == reflect.Slice && rv.Cap() == 0) {
+					continue
+				}
+				if other, dup := ptrs[rv.Pointer()]; dup && other != i {
+					c.Violation(sub+"/elements-share-memory/"+rc.kind, fmt.Sprintf("%s of element %d and something of element %d are the same object (%s, %s)", what, i, other, rc.kind, position), wit())
+					ok = false
+					break
+				}
+				ptrs[rv.Pointer()] = i
+			}
+		}
+		if ok {
+			c.Cover("dec.list-elements." + rc.kind + "." + position)
+		}
+	}
+}
